@@ -1,8 +1,8 @@
 (* C09 — generated tests pass against the very output they were generated from. *)
-From Coq Require Import List NArith Bool Arith.
+From Coq Require Import List NArith Bool Arith Lia.
 Import ListNotations.
 From SV Require Import Utf8 Escape EscapeProofs ExpGrammar ExpGrammarProofs Rules LineParser Generate GenerateProofs
-                       Diff Det DiffProofs DetProofs DetExtra Regen Template CramSpec GenBlock GenBlockProofs Markdown MdSpec Update.
+                       Diff Det DiffProofs DetProofs DetExtra Regen Template CramSpec GenBlock GenBlockProofs GenDocs GenDocsProofs Markdown MdSpec Update.
 Local Open Scope N_scope.
 
 (* [expectation_line m line] is the text create/update write for one line of output; out_line content line: the line is
@@ -102,6 +102,31 @@ Example C09_cram_test_instance :     (* title T, command `a` continued by `b`, o
      = LOk [mkPT [84] [[97]; [98]] [[120;32;40;103;108;111;98;41] ++ S_EQUAL; [92;116] ++ S_ESCAPED] (Some 3) 2].
 Proof. split; vm_compute; reflexivity. Qed.
 
+(* documents of SEVERAL generated tests (`scrut update --convert`, generate_testcases over a list of outcomes): the tests one after
+   the other, two blank lines between them.  Cram: the document reads back (C07) as exactly those tests, in order, each with its
+   title, command lines, written expectation lines, exit code and the line its `$` stands on. *)
+Theorem C09_cram_tests_read_back : forall pe m ts, Forall (g_ok pe m) ts ->
+  parse_cram pe (render_cram (gen_cram_docs m ts)) = LOk (g_tests m ts 0).
+Proof. exact cram_docs_read_back. Qed.
+(* Markdown, where every header may carry an inline configuration (a converted Cram test carries what differs from the Markdown
+   defaults): as many tests as elements, in order, each with the command lines, written expectation lines and exit code of its
+   element and that configuration *)
+Theorem C09_markdown_tests_read_back : forall pe front_ok cfg_ok m cfg ts, Forall (g_ok_md pe m) ts -> cfg_fine cfg_ok cfg ->
+  exists rs, parse_md pe front_ok cfg_ok (render_md (gen_md_docs m cfg ts)) = LOk rs /\ Forall2 (same_test m cfg) ts rs.
+Proof. exact md_docs_read_back. Qed.
+Example C09_tests_instance :     (* two tests: title T, `a`, output "x\n", code 0; no title, `b`, no output, code 3 *)
+  let ts := [mkG (Some [84]) [97] [] [[120; 10]] 0; mkG None [98] [] [] 3] in
+  Forall (g_ok (fun _ => true) Ascii) ts /\ Forall (g_ok_md (fun _ => true) Ascii) ts
+  /\ render_cram (gen_cram_docs Ascii ts) = [[84]; [32;32;36;32;97]; [32;32;120]; []; []; [32;32;36;32;98]; [32;32;91;51;93]]
+  /\ parse_cram (fun _ => true) (render_cram (gen_cram_docs Ascii ts)) = LOk [mkPT [84] [[97]] [[120]] None 2; mkPT [] [[98]] [] (Some 3) 6]
+  /\ parse_md (fun _ => true) (fun _ => true) (fun _ => true) (render_md (gen_md_docs Ascii (Some [107; 58; 32; 118]) ts))
+     = LOk [mkMT (mkPT [84] [[97]] [[120]] None 4) (Some [107; 58; 32; 118]); mkMT (mkPT [] [[98]] [] (Some 3) 10) (Some [107; 58; 32; 118])].
+Proof.
+  cbv zeta. split; [|split; [|split; [vm_compute; reflexivity|split; vm_compute; reflexivity]]].
+  - repeat constructor; vm_compute; try reflexivity; try (intros; discriminate); lia.
+  - repeat constructor; vm_compute; try reflexivity; try (intros; discriminate); try congruence; lia.
+Qed.
+
 (* the determinism premise is needed -- the listed known finding: a kept optional-multiline expectation followed by an
    overlapping one.  lines 1 2; expectations  1(optional multiline), 9, any-single-line *)
 Example C09_regen_greedy_refuted :
@@ -126,6 +151,11 @@ Example C09_instances :
   /\ expectation_line Unicode [102; 111; 111; 10] = [102; 111; 111].
 Proof. repeat split; vm_compute; reflexivity. Qed.
 
+Check C09_cram_tests_read_back : forall pe m ts, Forall (g_ok pe m) ts ->
+  parse_cram pe (render_cram (gen_cram_docs m ts)) = LOk (g_tests m ts 0).
+Check C09_markdown_tests_read_back : forall pe front_ok cfg_ok m cfg ts, Forall (g_ok_md pe m) ts -> cfg_fine cfg_ok cfg ->
+  exists rs, parse_md pe front_ok cfg_ok (render_md (gen_md_docs m cfg ts)) = LOk rs /\ Forall2 (same_test m cfg) ts rs.
+
 Print Assumptions C09_line_round_trip.
 Print Assumptions C09_line_not_exit_code.
 Print Assumptions C09_regen_described.
@@ -133,3 +163,5 @@ Print Assumptions C09_regen_accepts_when_deterministic.
 Print Assumptions C09_generated_expectations_pass.
 Print Assumptions C09_cram_test_reads_back.
 Print Assumptions C09_markdown_test_reads_back.
+Print Assumptions C09_cram_tests_read_back.
+Print Assumptions C09_markdown_tests_read_back.
